@@ -144,6 +144,9 @@ def law_family():
     fam += [Mem(x, 32, z16), Mem(x, 8, z16), Mem(Op('+', x, y), 32, z16), Op('+', Mem(x, 32, z16), y), Sl(Mem(x, 32, z16), 0, 8), Cond(f, Mem(x, 32, z16), y), Comp((Mem(x, 8, z16), 0, 8), (c, 8, 16)),
             Aff(Mem(x, 32, z16), y), Aff(y, Mem(x, 32, z16)), Mem(Mem(x, 32, z16)), Mem(x, 32, SC(0, 16)), Mem(C(0)), Mem(C(0), 32, z16), Cond(C(0), x, y), Cond(x, C(0), y), Op('+', C(0), x),
             Comp((C(0, 8), 0, 8), (b, 8, 16)), Aff(x, C(0))]
+    # an expression next to its trivial wrappers (the slice of its full width, the concatenation of one piece): neighbours in the list are compared in both orders, so an equality
+    # that identifies a wrapper with its content on one side only (or without the same hash) is met
+    fam += [z, Sl(z, 0, 32), Comp((z, 0, 32)), w, Sl(w, 0, 16), Comp((w, 0, 16)), c, Sl(c, 0, 8), Mem(z), Sl(Mem(z), 0, 32), Op('*', z, y), Sl(Op('*', z, y), 0, 32), Cond(f, z, y), Sl(Cond(f, z, y), 0, 32)]
     # no assignments to slices here (ExprAff rewrites them in its constructor: C11 decides that)
     out, seen = [], set()
     for e in fam:
